@@ -63,9 +63,9 @@ theorem fp_efun_args_checked_table (e : Efun) (he : e ∈ efuns) (bound ct : Nat
   simp only [Bool.and_eq_true, decide_eq_true_eq] at h
   exact (fp_efun_args_checked e bound ct h.1 h.2 hacc).1
 
-/-- merge_arg_lists() has no stack-room test: its `sp += num_arr_arg` is one of the unchecked pushes of the open
-    finding C01-stack-unchecked-push (recorded, not proved safe) -/
-theorem merge_arg_lists_unchecked : mergeArgListsStackCheck = false := by decide
+/-- merge_arg_lists() tests the stack room before `sp += num_arr_arg` (repaired; the guard itself is the regenerated
+    `guard_stack_merge_arg_lists`, lemma `g_stack_check_merge`) -/
+theorem merge_arg_lists_checked : mergeArgListsStackCheck = true := by decide
 
 /-- non-vacuity: `(: explode, "a b c" :)` evaluated with one more argument: both positions are checked -/
 example : (fpChecks ⟨"x", 300, 2, 2, [4, 4, 0, 0], 0⟩ 1 1).map (·.1) = [1, 2] := by decide
